@@ -305,6 +305,30 @@ pub fn c15(cx: &mut Ctx) {
             }
         }
     }
+    // the head is handed out, then try_response is asked again (nothing new / the start of the body) before
+    // advancing: status and Location of the response stay those of the head
+    for st in [300u16, 301, 303, 307, 304, 200] {
+        for (bi, body) in ["", "hello"].iter().enumerate() {
+            for again in 0..3 {
+                cx.case("again");
+                if cx.rec.new_flow("GET HTTP/1.1 http://a.test/p 0") != "ok" { continue; }
+                cx.op("proceed"); cx.op("write 65536"); cx.op("proceed");
+                let head = format!("HTTP/1.1 {} R\r\nLocation: /n\r\nContent-Length: {}\r\n\r\n", st, body.len());
+                cx.op(&format!("resp {}", hx(head.as_bytes())));
+                match again {
+                    0 => { cx.op("resp -"); }
+                    1 => { cx.op(&format!("resp {}", hx(if bi == 0 { b"HTTP/1." } else { body.as_bytes() }))); }
+                    _ => { cx.op("canproceed"); cx.op("resp -"); cx.op("resp -"); }
+                }
+                cx.op("canproceed");
+                cx.op("proceed");
+                if cx.rec.state() == "recvBody" { cx.op(&format!("bread {} 100", hx(body.as_bytes()))); cx.op("proceed"); }
+                if cx.rec.state() != "redirect" { cx.op("close?"); continue; }
+                cx.op("status");
+                if cx.op("follow never").starts_with("flow ") { cx.op("method?"); cx.op("uri?"); }
+            }
+        }
+    }
     let n = if cx.thorough { 4000 } else { 400 };
     chains(cx, 15, n);
 }
